@@ -69,4 +69,7 @@ theorem generateService_literals :
     "call:d.RPCGoString" ∈ Expected.fp_cmd_protoc_gen_go_drpc_main_drpc_generateService ∧
     "call:d.RPCGoString" ∈ Expected.fp_cmd_protoc_gen_go_drpc_main_drpc_generateClientMethod := by decide
 
+/-! constructors, accessors and small helpers -/
+theorem x_drpcmux_mux_New : Generated.fp_drpcmux_mux_New = Expected.fp_drpcmux_mux_New := by decide
+
 end Drpc.Tie.C17
